@@ -657,7 +657,10 @@ func (d *DHCPv4) HostName() string {
 //
 // The Root Path option is described by RFC 2132, Section 3.19.
 func (d *DHCPv4) RootPath() string {
-	return GetString(OptionRootPath, d.Options)
+	// RFC 2132, Section 2: receivers of NVT ASCII options must be prepared
+	// to delete trailing nulls.
+	name := GetString(OptionRootPath, d.Options)
+	return strings.TrimRight(name, "\x00")
 }
 
 // BootFileNameOption parses the DHCPv4 Bootfile Name option if present.
@@ -808,7 +811,10 @@ func (d *DHCPv4) MessageType() MessageType {
 //
 // The message options is described in RFC 2132, Section 9.9.
 func (d *DHCPv4) Message() string {
-	return GetString(OptionMessage, d.Options)
+	// RFC 2132, Section 2: receivers of NVT ASCII options must be prepared
+	// to delete trailing nulls.
+	msg := GetString(OptionMessage, d.Options)
+	return strings.TrimRight(msg, "\x00")
 }
 
 // ParameterRequestList returns the DHCPv4 Parameter Request List.
